@@ -18,6 +18,8 @@ collect_requests and both send_responses calls follow it before the next iterati
 one send_to per iteration outside any inner loop, destination / nonce / index taken from that iteration's element (C02.5).
 (5) Rejected datagrams cause none (C07.3; C07's size-gate rules are obligations here too: the length judged is the count recv_from returned and the receive buffer is larger than MAX_REQUEST_LENGTH).  The serving loop is single-threaded per worker, so its CFG covers every interleaving of arrivals.(6) "Proving its own inclusion": C02's leaf-definition and response-assembly rules (what is hashed as the leaf of a request; INDX, PATH, nonce and destination from one queued element).
 (7) Requests still queued in the socket get their pass: C08's wake-up rules (level-triggered registration, bounded loops).
+(8) Batch life-cycle as a typestate of every Responder over the whole program (reset -> add* -> send_responses; server_model.responder_typestate), and the request
+queue changes only together with the tree (server_model.queue_lockstep), so position i of the queue is leaf i of the tree that is signed.
 """
 NOT_DECIDED = "kernel delivery of the datagram"
 TRUSTED = ["Vec::push / slice::iter().enumerate() semantics"]
